@@ -229,11 +229,16 @@ func check(ctx *pbt.Ctx, c Case) error {
 		ctx.Discard(err.Error())
 		return nil
 	}
+	return judgeFund(ctx, c, want, ref.ToLib(c.Tx), ref.FeeQuoteToLib(c.Quote))
+}
 
+// judgeFund runs one Fund call on the library object tx with the quote object fq and the
+// supplier history of c (batches, terminator) and compares it with want, the model's run from
+// c.Tx - the independent model of the transaction as it stands when Fund is called - under
+// the rates c.Quote.
+func judgeFund(ctx *pbt.Ctx, c Case, want modelResult, tx *bt.Tx, fq *bt.FeeQuote) error {
 	// ---- run the library with an instrumented supplier --------------------------------
-	tx := ref.ToLib(c.Tx)
 	before := ref.FromLib(tx)
-	fq := ref.FeeQuoteToLib(c.Quote)
 	var got []uint64
 	handed := 0
 	var handedOut []U
@@ -495,9 +500,20 @@ func genCase(t *rapid.T) Case {
 		}
 	}
 
-	// batches: values are aimed at the model's running deficit
-	cur := c.Tx
-	cur.In = append([]ref.In{}, c.Tx.In...)
+	c.Batches = genBatches(t, c.Tx, c.Quote)
+	c.End = rapid.SampledFrom([]string{"exhausted", "error", "exhausted-wrapped"}).Draw(t, "end")
+	for i := range stored { // keep the short form; values were assigned on the expanded copy
+		stored[i].PrevSats = c.Tx.In[i].PrevSats
+	}
+	c.Tx.In, c.RepPrior = stored, rep
+	return c
+}
+
+// genBatches draws a supplier history for a transaction that stands as start: values are
+// aimed at the model's running deficit.
+func genBatches(t *rapid.T, start ref.Tx, q ref.FeeQuote) (batches [][]U) {
+	cur := start
+	cur.In = append([]ref.In{}, start.In...)
 	nb := rapid.IntRange(0, 6).Draw(t, "nbatches")
 	for b := 0; b < nb; b++ {
 		n := []int{1, 2, 0, 3, 4}[rapid.IntRange(0, 4).Draw(t, "batchlen")]
@@ -511,7 +527,7 @@ func genCase(t *rapid.T) Case {
 			probe := cur
 			probe.In = append(append([]ref.In{}, cur.In...), inputOf(u))
 			var need uint64
-			if d, _, err := deficitOf(probe, c.Quote); err == nil {
+			if d, _, err := deficitOf(probe, q); err == nil {
 				need = d.Uint64()
 			}
 			switch rapid.IntRange(0, 9).Draw(t, "uval") {
@@ -548,14 +564,9 @@ func genCase(t *rapid.T) Case {
 				cur.In = append(cur.In, inputOf(u))
 			}
 		}
-		c.Batches = append(c.Batches, batch)
+		batches = append(batches, batch)
 	}
-	c.End = rapid.SampledFrom([]string{"exhausted", "error", "exhausted-wrapped"}).Draw(t, "end")
-	for i := range stored { // keep the short form; values were assigned on the expanded copy
-		stored[i].PrevSats = c.Tx.In[i].PrevSats
-	}
-	c.Tx.In, c.RepPrior = stored, rep
-	return c
+	return batches
 }
 
 func TestFund(t *testing.T) {
